@@ -7,11 +7,18 @@ import JoinModel.Syntax
 import JoinModel.Names
 namespace JoinModel
 
-/-- Every `expect(..)` / `unwrap()` / `panic!` site of the generator is an explicit outcome. -/
-inductive GenErr
-  | handlerNotTry | thenInTry | fcpNotAsync | noBranch          -- JoinOutput::new rejections (whitelisted)
+/-- Every `expect(..)` / `unwrap()` / `panic!` site of the per-branch generator is an explicit outcome. -/
+inductive ChainErr
   | lastStepStream | stepExprsLenZero | expectedWrapper | replaceFailed | zeroStepStreams
-  | popStepStreams | emitPanics (c : Comb) | badTemplate (c : Comb) | noSteps
+  | popStepStreams | emitPanics (c : Comb) | badTemplate (c : Comb)
+  deriving DecidableEq, Repr, Inhabited
+
+/-- Outcomes of `generate_join` other than code: the four whitelisted configuration rejections of
+    `JoinOutput::new`, or an internal panic ("This's a bug, please report it"). -/
+inductive GenErr
+  | handlerNotTry | thenInTry | fcpNotAsync | noBranch
+  | internal (e : ChainErr)
+  | noSteps
   deriving DecidableEq, Repr, Inhabited
 
 def GenErr.isReject : GenErr → Bool
@@ -21,10 +28,7 @@ def GenErr.isReject : GenErr → Bool
 def GenErr.name : GenErr → String
   | .handlerNotTry => "CfgReject:handlerNotTry" | .thenInTry => "CfgReject:thenInTry"
   | .fcpNotAsync => "CfgReject:fcpNotAsync" | .noBranch => "CfgReject:noBranch"
-  | .lastStepStream => "InternalPanic:lastStepStream" | .stepExprsLenZero => "InternalPanic:stepExprsLenZero"
-  | .expectedWrapper => "InternalPanic:expectedWrapper" | .replaceFailed => "InternalPanic:replaceFailed"
-  | .zeroStepStreams => "InternalPanic:zeroStepStreams" | .popStepStreams => "InternalPanic:popStepStreams"
-  | .emitPanics _ => "InternalPanic:emit" | .badTemplate _ => "InternalPanic:template"
+  | .internal _ => "InternalPanic:chain"
   | .noSteps => "InternalPanic:noSteps"
 
 /-- `let __ew{b}_{e}_{i} = toks;` -/
@@ -56,7 +60,7 @@ def emitRow (c : Comb) (n : Nat) : Option (Option (List TmplTok)) :=
   (Tables.emit.find? fun row => row.1 == c && row.2.1 == n).map (·.2.2)
 
 /-- `ToTokens` of the expression constructor `c` applied to operand token lists `ops`. -/
-def emitTokens (c : Comb) (ops : List Toks) : Except GenErr Toks :=
+def emitTokens (c : Comb) (ops : List Toks) : Except ChainErr Toks :=
   match emitRow c ops.length with
   | some (some t) =>
     match instTmpl t ops with
@@ -86,7 +90,7 @@ def capDefsOf (b : Nat) : List Member → Nat → List CapDef
 
 /-! ### One action applied to the stream built so far (`expand_process_expr` and the two other arms) -/
 
-def applyCtor (isAsync : Bool) (prev : Toks) (c : Comb) (ops : List Toks) : Except GenErr Toks :=
+def applyCtor (isAsync : Bool) (prev : Toks) (c : Comb) (ops : List Toks) : Except ChainErr Toks :=
   match c with
   | .initial => do
     -- the initial value is parenthesised: postfix actions are appended to it
@@ -121,7 +125,7 @@ structure Acc where
 def closureToks (body : Toks) : Toks := [pu '|', Var.v.tok, pu '|'] ++ body
 
 /-- `wrap_last_step_stream(acc, None)` -/
-def wrapLast (isAsync : Bool) (acc : Acc) : Except GenErr Acc :=
+def wrapLast (isAsync : Bool) (acc : Acc) : Except ChainErr Acc :=
   match acc.frames with
   | [] => .error .lastStepStream
   | [_] => .error .stepExprsLenZero
@@ -135,7 +139,7 @@ def wrapLast (isAsync : Bool) (acc : Acc) : Except GenErr Acc :=
       | .error e => .error e
 
 /-- `process_step_action_expr` for the action `m` at position `e` of its step, branch `b`. -/
-def processAction (isAsync : Bool) (b : Nat) (acc : Acc) (m : Member) (e : Nat) : Except GenErr Acc :=
+def processAction (isAsync : Bool) (b : Nat) (acc : Acc) (m : Member) (e : Nat) : Except ChainErr Acc :=
   match m.mv with
   | .unwrap => wrapLast isAsync acc
   | .wrap =>
@@ -151,7 +155,7 @@ def processAction (isAsync : Bool) (b : Nat) (acc : Acc) (m : Member) (e : Nat) 
       | .ok t => .ok ⟨acc.defs ++ defs, ⟨t, none⟩ :: rest⟩
       | .error er => .error er
 
-def processActions (isAsync : Bool) (b : Nat) : Acc → List Member → Nat → Except GenErr Acc
+def processActions (isAsync : Bool) (b : Nat) : Acc → List Member → Nat → Except ChainErr Acc
   | acc, [], _ => .ok acc
   | acc, m :: ms, e =>
     match processAction isAsync b acc m e with
@@ -159,7 +163,7 @@ def processActions (isAsync : Bool) (b : Nat) : Acc → List Member → Nat → 
     | .error er => .error er
 
 /-- The closing loop at the end of a step: wrappers still open close here. -/
-def closeAll (isAsync : Bool) : Nat → Acc → Except GenErr (List CapDef × Toks)
+def closeAll (isAsync : Bool) : Nat → Acc → Except ChainErr (List CapDef × Toks)
   | 0, _ => .error .zeroStepStreams
   | fuel + 1, acc =>
     match acc.frames with
@@ -177,7 +181,7 @@ def wrapIntoBlock (isAsync : Bool) (t : Toks) : Toks :=
 /-- The chain expression and the hoisted definitions of branch `b` for a step whose actions are `acts`,
     starting from the variable `prev`.  `none`: the branch has no actions in this step. -/
 def genBranchStep (isAsync : Bool) (b : Nat) (prev : Var) (acts : List Member) :
-    Except GenErr (Option (List CapDef × Toks)) :=
+    Except ChainErr (Option (List CapDef × Toks)) :=
   match acts with
   | [] => .ok none
   | _ :: _ =>
